@@ -66,7 +66,10 @@ pub fn encode(name: &str, is_table: bool) -> String {
 
 /// Determines if a name will work as CFB stream name once encoded.
 pub fn is_valid(name: &str, is_table: bool) -> bool {
-    if name.is_empty() || (!is_table && name.starts_with(TABLE_PREFIX)) {
+    if name.is_empty()
+        || (!is_table && name.starts_with(TABLE_PREFIX))
+        || name.chars().any(is_reserved_char)
+    {
         false
     } else {
         encode(name, is_table).encode_utf16().count() <= 31
@@ -74,6 +77,14 @@ pub fn is_valid(name: &str, is_table: bool) -> bool {
 }
 
 // ========================================================================= //
+
+/// Returns true for characters that cannot appear in a decoded name: those
+/// in the range that the name packing itself produces (which would alias
+/// another name, or a table), and those that the CFB container reserves.
+fn is_reserved_char(ch: char) -> bool {
+    (0x3800..=0x4840).contains(&(ch as u32))
+        || matches!(ch, '/' | '\\' | ':' | '!')
+}
 
 fn from_b64(value: u32) -> char {
     debug_assert!(value < 64);
